@@ -48,9 +48,9 @@ var (
 	curScenario  atomic.Value
 )
 
-func progress()  { lastProgress.Store(time.Now().UnixNano()) }
-func InvStart()  { progress(); busy.Add(1) }
-func InvStop()   { progress(); busy.Add(-1) }
+func progress() { lastProgress.Store(time.Now().UnixNano()) }
+func InvStart() { progress(); busy.Add(1) }
+func InvStop()  { progress(); busy.Add(-1) }
 
 func StartWatchdog(r *Recorder) {
 	go func() {
